@@ -50,6 +50,11 @@ def run(rep, tier):
                 rep.violation("ident/%s/accessor-panics" % kind, dict(det, acc=a))
             elif a.get("recompose") is False or (isinstance(a.get("sn"), dict) and a["sn"].get("recompose") is False):
                 rep.violation("ident/%s/accessors-do-not-recompose" % kind, dict(det, acc=a))
+            elif c["hascolon"] and (a.get("algorithm") if kind in ("serverkey", "devicekey") else a.get("localpart")) is not None:
+                # the split is at the first colon (key names, device ids and server names may contain further colons)
+                got = a["algorithm"] if kind in ("serverkey", "devicekey") else a["localpart"]
+                if (kind != "event" or a.get("server") is not None) and got != text_of(c["head"]):
+                    rep.violation("ident/%s/accessor-splits-at-the-wrong-colon" % kind, dict(det, acc=a, expected_head=text_of(c["head"])))
     rep.sample({"case": {"kind": cases[100]["kind"], "string": short(cases[100]["runs"]), "verdict": cases[100]["verdict"]}, "observed": obs[100]})
     # constructors
     _, out, _ = vlib.run_harness(["ctors", "c10"])
